@@ -7,6 +7,8 @@ import (
 	"runtime"
 	"sort"
 	"strings"
+	"sync"
+	"time"
 	"unsafe"
 )
 
@@ -20,8 +22,10 @@ type Switch struct {
 }
 
 // Sched serialises real goroutines: exactly one client runs at a time, and
-// the only places where the processor changes hands are yield points and
-// client termination.
+// the only places where the processor changes hands are yield points, client
+// termination and — when Monitor is set — the moment the running client blocks
+// in a synchronisation primitive the scheduler does not own (a mutex held by a
+// parked client, a condition variable, a channel).
 type Sched struct {
 	x        *X
 	plan     map[int]int
@@ -35,6 +39,20 @@ type Sched struct {
 	active   bool
 	alive    int
 	nblocked int // consecutive forced hand-overs without progress
+
+	// Monitor: watch the running client from outside (real time; not for use inside a synctest bubble).
+	Monitor  bool
+	mu       sync.Mutex // guards everything above once the monitor runs
+	gids     []uint64   // goroutine id per client
+	prim     []bool     // client is blocked in a primitive (or was, and has not reached a yield point since)
+	anyPrim  bool
+	progress uint64
+	// Nondet: a client was released from a primitive by another client and ran beside it up to its next yield point;
+	// the order of events in that stretch is the Go runtime's choice, not the seed's.
+	Nondet   bool
+	Deadlock string
+	finOnce  sync.Once
+	stackBuf []byte
 }
 
 func NewSched(x *X, nclients int, sw []Switch) *Sched {
@@ -45,18 +63,21 @@ func NewSched(x *X, nclients int, sw []Switch) *Sched {
 	for i := 0; i < nclients; i++ {
 		s.wake = append(s.wake, make(chan struct{}, 1))
 		s.done = append(s.done, false)
+		s.gids = append(s.gids, 0)
+		s.prim = append(s.prim, false)
 	}
 	s.alive = nclients
 	return s
 }
 
-// pick returns the k-th runnable client after cur (cyclically), or -1.
+// pick returns the k-th runnable client after cur (cyclically), or -1. Clients
+// blocked in a primitive are not runnable.
 func (s *Sched) pick(k int) int {
 	var run []int
 	n := len(s.done)
 	for i := 1; i <= n; i++ {
 		c := (s.cur + i) % n
-		if !s.done[c] {
+		if !s.done[c] && !s.prim[c] {
 			run = append(run, c)
 		}
 	}
@@ -69,28 +90,83 @@ func (s *Sched) pick(k int) int {
 	return run[k%len(run)]
 }
 
+// goid is the id of the calling goroutine (from the header of its stack trace).
+func goid() uint64 {
+	var buf [64]byte
+	n := runtime.Stack(buf[:], false)
+	// "goroutine 123 [running]:"
+	var id uint64
+	for _, ch := range buf[10:n] {
+		if ch < '0' || ch > '9' {
+			break
+		}
+		id = id*10 + uint64(ch-'0')
+	}
+	return id
+}
+
+// me identifies the calling client. While no client has ever blocked in a primitive that is the current one.
+func (s *Sched) me() int {
+	if !s.anyPrim {
+		return s.cur
+	}
+	g := goid()
+	for i, id := range s.gids {
+		if id == g {
+			return i
+		}
+	}
+	return s.cur
+}
+
+// parkReleased: a client that was blocked in a primitive has been released by another client and reached a
+// scheduler entry point while it is not the current client: it waits for its turn like everybody else.
+func (s *Sched) parkReleased(me int, site string) {
+	s.prim[me] = false
+	s.Nondet = true
+	s.progress++
+	s.x.Probe("released_from_primitive")
+	if s.cur < 0 {
+		// nobody holds the processor (everybody else is blocked or done): take it
+		s.cur = me
+		return
+	}
+	s.mu.Unlock()
+	<-s.wake[me]
+	s.mu.Lock()
+}
+
 // Yield is called by the running client (from library code, through a seam or
 // an inserted yield point).
 func (s *Sched) Yield(site string) {
 	if !s.active {
 		return
 	}
+	s.mu.Lock()
+	me := s.me()
+	if me != s.cur {
+		s.parkReleased(me, site)
+		// now current; fall through to the ordinary yield
+	}
 	ord := s.nyield
 	s.nyield++
+	s.progress++
 	s.sites[site]++
 	s.nblocked = 0
 	k, ok := s.plan[ord]
 	if !ok {
+		s.mu.Unlock()
 		return
 	}
 	next := s.pick(k)
 	if next < 0 || next == s.cur {
+		s.mu.Unlock()
 		return
 	}
-	me := s.cur
 	s.Switches = append(s.Switches, Switch{Yield: ord, Next: next})
 	s.x.Logf("switch at yield %d (%s): client %d -> %d", ord, site, me, next)
 	s.cur = next
+	s.mu.Unlock()
 	s.wake[next] <- struct{}{}
 	<-s.wake[me]
 }
@@ -103,47 +179,218 @@ func (s *Sched) Blocked(site string) {
 		runtime.Gosched()
 		return
 	}
+	s.mu.Lock()
+	me := s.me()
+	if me != s.cur {
+		s.parkReleased(me, site)
+	}
 	s.nblocked++
+	s.progress++
 	next := s.pick(0)
 	if next < 0 || next == s.cur || s.nblocked > 20000 {
-		panic(fmt.Sprintf("deadlock: client %d waits for a lock at %s and no other client can make progress", s.cur, site))
+		s.mu.Unlock()
+		panic(fmt.Sprintf("deadlock: client %d waits for a lock at %s and no other client can make progress", me, site))
 	}
-	me := s.cur
 	if s.nblocked <= 3 {
 		s.x.Logf("forced switch (lock busy at %s): client %d -> %d", site, me, next)
 	}
 	s.x.Probe("lock_contention_handover")
 	s.cur = next
+	s.mu.Unlock()
 	s.wake[next] <- struct{}{}
 	<-s.wake[me]
 }
 
-// Run starts one goroutine per client body and returns when all are done.
+func (s *Sched) finish() { s.finOnce.Do(func() { close(s.finished) }) }
+
+// Run starts one goroutine per client body and returns when all are done (or when no client can make progress).
 func (s *Sched) Run(bodies []func()) {
 	s.active = true
+	ready := make(chan struct{}, len(bodies))
 	for i := range bodies {
 		i := i
 		go func() {
+			s.gids[i] = goid()
+			ready <- struct{}{}
 			<-s.wake[i]
 			defer func() {
 				// termination: hand over to the next runnable client
+				s.mu.Lock()
+				if i != s.cur {
+					// released from a primitive and ran to its end beside the current client
+					s.Nondet = true
+					s.done[i] = true
+					s.prim[i] = false
+					s.alive--
+					s.progress++
+					last := s.alive == 0
+					s.mu.Unlock()
+					if last {
+						s.active = false
+						s.finish()
+					}
+					return
+				}
 				s.done[i] = true
+				s.prim[i] = false
 				s.alive--
+				s.progress++
 				if s.alive == 0 {
 					s.active = false
-					close(s.finished)
+					s.mu.Unlock()
+					s.finish()
 					return
 				}
 				next := s.pick(0)
+				if next < 0 {
+					// everybody else is blocked in a primitive: the monitor decides what that means
+					s.cur = -1
+					s.mu.Unlock()
+					return
+				}
 				s.cur = next
+				s.mu.Unlock()
 				s.wake[next] <- struct{}{}
 			}()
 			bodies[i]()
 		}()
 	}
+	for range bodies {
+		<-ready
+	}
 	s.cur = 0
 	s.wake[0] <- struct{}{}
-	<-s.finished
+	if !s.Monitor {
+		<-s.finished
+		return
+	}
+	s.watch()
+}
+
+// blockingState reports whether a goroutine status (the text between the brackets of a stack-trace header) is that of
+// a goroutine waiting in a synchronisation primitive.
+func blockingState(st string) bool {
+	for _, p := range []string{"chan receive", "chan send", "select", "sync.Mutex.Lock", "sync.RWMutex.RLock", "sync.RWMutex.Lock", "sync.Cond.Wait",
+		"sync.WaitGroup.Wait", "semacquire", "sleep"} {
+		if strings.HasPrefix(st, p) {
+			return true
+		}
+	}
+	return false
+}
+
+// goroutineState finds the status of goroutine id and whether it is inside the scheduler itself.
+func (s *Sched) goroutineState(id uint64) (state string, inSched bool) {
+	if s.stackBuf == nil {
+		s.stackBuf = make([]byte, 1<<20)
+	}
+	buf := s.stackBuf
+	n := runtime.Stack(buf, true)
+	dump := string(buf[:n])
+	hdr := fmt.Sprintf("goroutine %d [", id)
+	i := strings.Index(dump, hdr)
+	if i < 0 || (i > 0 && dump[i-1] != '\n') {
+		if i = strings.Index(dump, "\n"+hdr); i < 0 {
+			return "", false
+		}
+		i++
+	}
+	rest := dump[i+len(hdr):]
+	j := strings.IndexAny(rest, "],")
+	if j < 0 {
+		return "", false
+	}
+	state = rest[:j]
+	body := rest
+	if k := strings.Index(rest, "\n\n"); k >= 0 {
+		body = rest[:k]
+	}
+	// blocked inside the scheduler's own hand-over is not blocked in the code under test
+	lines := strings.SplitN(body, "\n", 8)
+	for _, ln := range lines[1:] {
+		if strings.HasPrefix(ln, "verif/sim.(*Sched).") {
+			return state, true
+		}
+		if !strings.HasPrefix(ln, "\t") && !strings.HasPrefix(ln, "runtime.") && !strings.HasPrefix(ln, "sync.") && !strings.HasPrefix(ln, "internal/") && !strings.HasPrefix(ln, "time.") {
+			break
+		}
+	}
+	return state, false
+}
+
+// watch is the monitor: when the current client makes no progress and its goroutine sits in a synchronisation
+// primitive, the processor is handed to the next parked client (a deterministic function of the scheduler state);
+// when nobody is left to run, that is a deadlock.
+func (s *Sched) watch() {
+	var last uint64
+	still := 0
+	for {
+		select {
+		case <-s.finished:
+			return
+		case <-time.After(2 * time.Millisecond):
+		}
+		s.mu.Lock()
+		if s.progress != last {
+			last, still = s.progress, 0
+			s.mu.Unlock()
+			continue
+		}
+		still++
+		if still < 3 {
+			s.mu.Unlock()
+			continue
+		}
+		if s.cur < 0 {
+			// the last runnable client ended; the others sit in primitives. Were they released in the meantime?
+			allBlocked := true
+			for c := range s.done {
+				if s.done[c] {
+					continue
+				}
+				if st, in := s.goroutineState(s.gids[c]); !blockingState(st) || in {
+					allBlocked = false
+				}
+			}
+			if allBlocked && still >= 10 {
+				s.deadlock("every remaining client waits in a synchronisation primitive and nobody is left to release them")
+				s.mu.Unlock()
+				return
+			}
+			s.mu.Unlock()
+			continue
+		}
+		st, in := s.goroutineState(s.gids[s.cur])
+		if in || !blockingState(st) {
+			s.mu.Unlock()
+			continue
+		}
+		// the running client is blocked in a primitive
+		me := s.cur
+		s.prim[me] = true
+		s.anyPrim = true
+		s.progress++
+		next := s.pick(0)
+		s.x.Probe("blocked_in_primitive_handover")
+		if next < 0 {
+			// nobody is parked at a yield point: either somebody released from a primitive is on its way, or it is a deadlock
+			s.cur = -1
+			s.x.Logf("client %d blocks in a primitive (%s); no parked client to run", me, st)
+			s.mu.Unlock()
+			continue
+		}
+		s.x.Logf("client %d blocks in a primitive (%s): processor -> client %d", me, st, next)
+		s.cur = next
+		s.mu.Unlock()
+		s.wake[next] <- struct{}{}
+	}
+}
+
+func (s *Sched) deadlock(why string) {
+	s.Deadlock = why
+	s.active = false
+	s.x.Logf("deadlock: %s", why)
+	s.finish()
 }
 
 func (s *Sched) key() uint64 {
